@@ -69,6 +69,10 @@ def case_sets(test):
         out.append([((), 0), (("0-",), 1)])                                 # Case() with no patterns never matches; no default
         out.append([(None, 0), ((a,), 1)])                                  # Case after Default is never active
         out.append([(("1 0",), 0), ((vals[1],), 1)])                        # whitespace in pattern
+        # integer patterns outside the range of the tested value (their two's-complement bits alias an in-range value): never match
+        alias = [2, 3, -3] if sg else [-1, -2, 5]
+        out.append([((alias[0],), 0), ((b,), 1), (None, 2)])
+        out.append([((alias[1], alias[2], a), 0), (None, 1)])
     elif w == 0:
         out.append([((0,), 0), (None, 1)])
         out.append([(("",), 0), (None, 1)])
